@@ -86,6 +86,13 @@ pub trait Decl: Sized + Serialize + DeserializeOwned + 'static {
     fn twin_wrap(raw: Self::TwinInner) -> Self::Twin;
     fn twin_unwrap(t: Self::Twin) -> Self::TwinInner;
     fn repr(inner: &Self::Inner) -> String;
+    /// Rendering of a raw (twin-side) value, comparable with `repr` of an inner value.
+    fn repr_raw(t: &Self::TwinInner) -> String {
+        match Self::lift(t.clone()) {
+            Ok(i) => Self::repr(&i),
+            Err(e) => format!("unliftable({e}):{t:?}"),
+        }
+    }
     /// Seeded generator of raw inner values: valid, at-bound, adjacent-to-bound, invalid,
     /// unsanitised, extreme.
     fn gen(rng: &mut Rng) -> Self::TwinInner;
